@@ -453,7 +453,7 @@ func c15CLI(c *fw.Ctx) fw.Outcome {
 	in := filepath.Join(c.TmpDir(), "in.srt")
 	out := filepath.Join(c.TmpDir(), "out.srt")
 	os.WriteFile(in, []byte(simpleSRT(cs)), 0o644)
-	os.Remove(out)
+	out = outPath(r, in, out)
 	key := hashCues(cs, uint64(a1), uint64(d1), uint64(a2), uint64(d2))
 	msg, err := cli("apply-linear-correction", "-i", in, "-a1", time.Duration(a1).String(), "-d1", time.Duration(d1).String(), "-a2", time.Duration(a2).String(), "-d2", time.Duration(d2).String(), "-o", out)
 	if err != nil {
